@@ -60,6 +60,51 @@ func isBound(s sock) bool {
 	return false
 }
 
+var portCursor int
+
+// freePorts returns n port numbers that are free on tcp and udp and lie BELOW the kernel's ephemeral range, so that
+// neither a `:0` bind nor the source port of an outgoing connection (fake docker / apiserver clients) can ever
+// take them between the moment they are chosen and the moment the code under test binds them.
+func freePorts(n int) []int {
+	lo := 32768
+	if b, err := os.ReadFile("/proc/sys/net/ipv4/ip_local_port_range"); err == nil {
+		if f := strings.Fields(string(b)); len(f) == 2 {
+			if v, err := strconv.Atoi(f[0]); err == nil && v > 12000 {
+				lo = v
+			}
+		}
+	}
+	span := lo - 10000
+	if portCursor == 0 {
+		portCursor = (os.Getpid()*7919 + int(time.Now().UnixNano()%1000)*13) % span
+	}
+	var out []int
+	for tries := 0; len(out) < n && tries < 4*span; tries++ {
+		p := 10000 + portCursor%span
+		portCursor++
+		ct, _, err := tryBind("tcp", p)
+		if err != nil {
+			continue
+		}
+		cu, _, err2 := tryBind("udp", p)
+		ct.Close()
+		if err2 != nil {
+			continue
+		}
+		cu.Close()
+		out = append(out, p)
+	}
+	return out
+}
+
+// releaseOrphans lets the finalizers of unreachable sockets (orphaned by a re-open) run, so that no socket of a
+// finished case is still bound when the next case starts.
+func releaseOrphans() {
+	runtime.GC()
+	runtime.GC()
+	time.Sleep(2 * time.Millisecond)
+}
+
 func socketFDs() int {
 	es, err := os.ReadDir("/proc/self/fd")
 	if err != nil {
@@ -119,6 +164,7 @@ func execSK(c *ctx, ops []string) *caseResult {
 		for p := range held {
 			h.CloseHostports(p)
 		}
+		releaseOrphans()
 	}()
 	resolvePort := func(w string) (int, bool) {
 		if strings.HasPrefix(w, "P") {
@@ -212,26 +258,8 @@ func execSK(c *ctx, ops []string) *caseResult {
 		switch f[0] {
 		case "sk-init":
 			n, _ := strconv.Atoi(f[1])
-			// n ports free on both protocols, assigned by the kernel
-			for len(palette) < n {
-				cl, p, err := tryBind("tcp", 0)
-				if err != nil {
-					break
-				}
-				cu, _, err2 := tryBind("udp", p)
-				cl.Close()
-				if err2 != nil {
-					continue
-				}
-				cu.Close()
-				dupe := false
-				for _, q := range palette {
-					dupe = dupe || q == p
-				}
-				if !dupe {
-					palette = append(palette, p)
-				}
-			}
+			// n ports free on both protocols, outside the ephemeral range
+			palette = freePorts(n)
 			emit(i, "sk-init", "ok")
 		case "sk-fbind":
 			s, ok := parseSock(f[1])
@@ -295,10 +323,30 @@ func execSK(c *ctx, ops []string) *caseResult {
 				continue
 			}
 			freeBefore := map[sock]bool{}
+			// is a failure with "in use" explained by what galaxy and the harness hold themselves?
+			expectInUse := false
+			taken := map[sock]bool{}
+			for s := range foreign {
+				taken[s] = true
+			}
+			for _, ss := range held {
+				for _, s := range ss {
+					taken[s] = true
+				}
+			}
+			for _, s := range orphan {
+				taken[s] = true
+			}
 			for _, p := range ports {
 				s := sock{strings.ToLower(p.Protocol), int(p.HostPort)}
-				if p.HostPort != 0 && !isBound(s) {
-					freeBefore[s] = true
+				if p.HostPort != 0 {
+					if taken[s] {
+						expectInUse = true
+					}
+					taken[s] = true
+					if !isBound(s) {
+						freeBefore[s] = true
+					}
 				}
 			}
 			fds := socketFDs()
@@ -321,12 +369,20 @@ func execSK(c *ctx, ops []string) *caseResult {
 				}
 				for s := range freeBefore {
 					if isBound(s) {
-						m.add("failed-open-leaves-port", fmt.Sprintf("OpenHostports failed but %s stays bound", s))
+						if c.netns != "private" {
+							res.inconclusive = true // another process of the host may have taken it meanwhile
+						} else {
+							m.add("failed-open-leaves-port", fmt.Sprintf("OpenHostports failed but %s stays bound", s))
+						}
 					}
 				}
 				class := "err:in-use"
 				if strings.Contains(err.Error(), "unknown protocol") {
 					class = "err:bad-proto"
+				} else if !expectInUse {
+					// "address already in use" on a port neither galaxy nor this harness holds: the environment
+					// (another process in the host namespace) took it — never a verdict
+					res.inconclusive = true
 				}
 				// choices for the model: what the kernel picked for the random requests served before the
 				// failure (OpenHostports wrote them back), any admissible port for the ones never reached
